@@ -11,6 +11,7 @@ from typing import Any
 from .core import AnalysisError, Repo
 from .report import VERIF, Ctx, load_known_findings, write_evidence
 
+_REPOS: dict[str, Repo] = {}
 ALL_PROPS = [f"C{n:02d}" for n in range(1, 20)]
 
 
@@ -20,7 +21,10 @@ def rule_module(prop: str):
 
 def analyse(prop: str, root: str, tier: str = "quick") -> Ctx:
     """Run the rules; AnalysisErrors are collected in ctx.errors (never raised)."""
-    repo = Repo(root)
+    repo = _REPOS.get(root)
+    if repo is None:
+        repo = Repo(root)
+        _REPOS[root] = repo  # one parse / call graph per source tree and process (`./check all`)
     ctx = Ctx(repo, prop, tier)
     mod = rule_module(prop)
     for rule in mod.RULES:
